@@ -71,6 +71,7 @@ PROBES = [
     "family.JSONPathSyntaxError", "family.JSONPathTypeError", "family.JSONPathNameError", "family.JSONPathIndexError",
     "family.JSONPointerError", "family.JSONPatchError", "family.JSONDecodeError", "family.UnicodeDecodeError",
     "empty_expression", "large_document", "corruption_still_decodable", "r_used.path", "r_used.pointer", "stdin_document", "o_sink", "ok_nonempty",
+    "expression_file_readings_differ",
 ]
 
 _ENV = jsonpath.JSONPathEnvironment()
@@ -282,14 +283,29 @@ def _stream(doc_src: str, data: bytes) -> Any:
     return io.StringIO(data.decode("utf-8"))  # may raise UnicodeDecodeError: undecodable document
 
 
-def oracle(plan: Dict[str, Any], doc_bytes: bytes, patch_bytes: bytes) -> Tuple[str, Any]:
+def _expr_readings(plan: Dict[str, Any]) -> List[str]:
+    """The expression(s) the tool may take from the command line / the -r file.
+
+    "Read from a file" does not say how much surrounding white space belongs to the expression: the
+    tool strips all of it; dropping only the final line break (or all leading/trailing line breaks)
+    is as faithful.  Where those readings differ the CLI may agree with any one of them."""
+    if plan["cmd"] == "patch" or plan["expr_src"] != "file":
+        return [plan["expr"]]
+    text = _file_text(plan)
+    out: List[str] = []
+    for cand in (text.strip(), text.rstrip("\r\n"), text.strip("\r\n")):
+        if cand not in out:
+            out.append(cand)
+    return out
+
+
+def oracle(plan: Dict[str, Any], doc_bytes: bytes, patch_bytes: bytes, expr: Optional[str] = None) -> Tuple[str, Any]:
     """('ok', result) | ('reject', family name) | ('skip', why)."""
     cmd = plan["cmd"]
     ue = "--no-unicode-escape" not in plan["gopts"]
     ud = "-u" in plan["sopts"] or "--uri-decode" in plan["sopts"]
-    expr = plan["expr"]
-    if plan["expr_src"] == "file":
-        expr = _file_text(plan).strip()
+    if expr is None:
+        expr = _expr_readings(plan)[0]
     try:
         if cmd == "path":
             env = jsonpath.JSONPathEnvironment(unicode_escape=ue, well_typed="--no-type-checks" not in plan["sopts"])
@@ -365,16 +381,92 @@ def _argv(plan: Dict[str, Any]) -> List[str]:
 
 
 def _serialisations(result: Any, pretty: bool) -> List[bytes]:
+    """Every rendering that counts as "the JSON serialisation" of *result*.
+
+    json.dumps of the value, document order kept: without --pretty on one line (default or compact
+    separators), with --pretty indented (2 is what the tool does; other indents are as pretty);
+    either ensure_ascii setting; an optional single trailing newline."""
     out = []
-    for ea in (True, False):
-        try:
-            s = json.dumps(result, indent=2 if pretty else None, ensure_ascii=ea)
-        except Exception:  # noqa: BLE001
-            continue
-        b = s.encode("utf-8", "surrogatepass")
-        out.append(b)
-        out.append(b + b"\n")
+    layouts: List[Dict[str, Any]] = (
+        [{"indent": i} for i in (2, 4, 1, 3, "\t")] if pretty else [{}, {"separators": (",", ":")}]
+    )
+    for kw in layouts:
+        for ea in (True, False):
+            try:
+                s = json.dumps(result, ensure_ascii=ea, **kw)
+            except Exception:  # noqa: BLE001
+                continue
+            b = s.encode("utf-8", "surrogatepass")
+            out.append(b)
+            out.append(b + b"\n")
     return out
+
+
+def _judge(ctx: Optional[Ctx], plan: Dict[str, Any], res: Any, produced: bytes, verdict: str, detail: Any,
+           fired: List[str], shown: str) -> Optional[Violation]:
+    """None if the CLI outcome is what the statement asks for given this oracle verdict."""
+    cmd = plan["cmd"]
+    debug = "--debug" in plan["gopts"]
+    pretty = "--pretty" in plan["gopts"]
+
+    def count(k: str) -> None:
+        if ctx is not None:
+            ctx.count(k)
+
+    if verdict == "skip":
+        count(f"skipped.{detail}")
+        if str(detail).startswith("nonfamily"):
+            count("skipped_library_nonfamily")
+        return None
+    if verdict == "ok":
+        if fired:
+            count("probe.corruption_still_decodable")
+        if res.status != 0 or res.escaped:
+            return Violation(
+                "C18.ok",
+                f"the library call succeeds ({core.short(detail, 120)}) but the CLI exited with status {res.status}"
+                f"{' after uncaught ' + res.escaped if res.escaped else ''}; stderr={core.short(res.stderr, 300)!r}; {shown}",
+                f"C18.ok:{cmd}:status{res.status}:{res.escaped or 'exit'}",
+            )
+        if produced not in _serialisations(detail, pretty):
+            return Violation(
+                "C18.ok",
+                f"CLI wrote {core.short(produced.decode('utf-8', 'replace'), 300)!r} but the library call returns "
+                f"{core.short(detail, 300)} (pretty={pretty}); {shown}",
+                f"C18.ok:{cmd}:output-differs",
+            )
+        if detail not in ([], None, "", {}):
+            count("probe.ok_nonempty")
+            if ctx is not None:
+                ctx.nontrivial = True
+        return None
+    count(f"probe.family.{detail}")
+    if ctx is not None:
+        ctx.nontrivial = True
+    if res.status != 1:
+        return Violation(
+            "C18.debug" if debug else "C18.reject",
+            f"the library rejects this input ({detail}) but the CLI exited with status {res.status}; "
+            f"stdout={core.short(produced.decode('utf-8', 'replace'), 200)!r}; {shown}",
+            f"C18.reject:{cmd}:{detail}:status{res.status}",
+        )
+    if not debug:
+        if res.escaped is not None or "Traceback (most recent call last)" in res.stderr or b"Traceback (most recent call last)" in res.stdout:
+            last = res.stderr.strip().splitlines()[-1] if res.stderr.strip() else ""
+            return Violation(
+                "C18.reject",
+                f"the library rejects this input ({detail}); the CLI printed a traceback / let {res.escaped} escape "
+                f"without --debug: {core.short(last, 200)!r}; {shown}",
+                f"C18.reject:{cmd}:{detail}:traceback:{res.escaped}",
+            )
+        msg = res.stderr[:-1] if res.stderr.endswith("\n") else res.stderr
+        if not msg.strip() or "\n" in msg or "\r" in msg:
+            return Violation(
+                "C18.reject",
+                f"the library rejects this input ({detail}); stderr is not a one-line message: {core.short(res.stderr, 300)!r}; {shown}",
+                f"C18.reject:{cmd}:{detail}:not-one-line",
+            )
+    return None
 
 
 def execute(spec: Dict[str, Any], ctx: Ctx) -> None:
@@ -422,70 +514,35 @@ def execute(spec: Dict[str, Any], ctx: Ctx) -> None:
     ctx.steps += 1
     ctx.log.add("invoke", " ".join(argv), "status", res.status, "out", len(produced), "err", len(res.stderr), "escaped", res.escaped or "-")
 
-    verdict, detail = oracle(plan, doc_bytes, patch_bytes)
-    ctx.log.add("oracle", verdict, detail if verdict != "ok" else core.short(detail, 80))
     fk = ",".join(sorted(set(fired))) or "-"
     opt_sig = ",".join(sorted(plan["gopts"] + plan["sopts"])) or "-"
     if res.status == 2 and "usage:" in res.stderr:
+        # every generated command line uses documented options only: a usage error is judged like any
+        # other outcome (exit status 2 is neither 0 nor 1)
         ctx.count("usage_errors")
-        ctx.state(cmd, "usage")
-        return
-    outcome_class = verdict if verdict != "reject" else f"reject:{detail}"
-    ctx.state(cmd, opt_sig, plan["expr_src"], plan["doc_src"], plan["out"], outcome_class, fk)
     shown = f"argv={argv} doc={core.short(doc_bytes.decode('latin-1'), 200)!r}" + (
         f" patch={core.short(patch_bytes.decode('latin-1'), 200)!r}" if cmd == "patch" else ""
     )
-    if verdict == "skip":
-        ctx.count(f"skipped.{detail}")
-        if str(detail).startswith("nonfamily"):
-            ctx.count("skipped_library_nonfamily")
-        return
-    if verdict == "ok":
-        if fired:
-            ctx.count("probe.corruption_still_decodable")
-        if res.status != 0 or res.escaped:
-            raise Violation(
-                "C18.ok",
-                f"the library call succeeds ({core.short(detail, 120)}) but the CLI exited with status {res.status}"
-                f"{' after uncaught ' + res.escaped if res.escaped else ''}; stderr={core.short(res.stderr, 300)!r}; {shown}",
-                f"C18.ok:{cmd}:status{res.status}:{res.escaped or 'exit'}",
-            )
-        if produced not in _serialisations(detail, pretty):
-            raise Violation(
-                "C18.ok",
-                f"CLI wrote {core.short(produced.decode('utf-8', 'replace'), 300)!r} but the library call returns "
-                f"{core.short(detail, 300)} (pretty={pretty}); {shown}",
-                f"C18.ok:{cmd}:output-differs",
-            )
-        if detail not in ([], None, "", {}):
-            ctx.count("probe.ok_nonempty")
-            ctx.nontrivial = True
-    else:
-        ctx.count(f"probe.family.{detail}")
-        ctx.nontrivial = True
-        if res.status != 1:
-            raise Violation(
-                "C18.debug" if debug else "C18.reject",
-                f"the library rejects this input ({detail}) but the CLI exited with status {res.status}; "
-                f"stdout={core.short(produced.decode('utf-8', 'replace'), 200)!r}; {shown}",
-                f"C18.reject:{cmd}:{detail}:status{res.status}",
-            )
-        if not debug:
-            if res.escaped is not None or "Traceback (most recent call last)" in res.stderr or b"Traceback (most recent call last)" in res.stdout:
-                last = res.stderr.strip().splitlines()[-1] if res.stderr.strip() else ""
-                raise Violation(
-                    "C18.reject",
-                    f"the library rejects this input ({detail}); the CLI printed a traceback / let {res.escaped} escape "
-                    f"without --debug: {core.short(last, 200)!r}; {shown}",
-                    f"C18.reject:{cmd}:{detail}:traceback:{res.escaped}",
-                )
-            msg = res.stderr[:-1] if res.stderr.endswith("\n") else res.stderr
-            if not msg.strip() or "\n" in msg or "\r" in msg:
-                raise Violation(
-                    "C18.reject",
-                    f"the library rejects this input ({detail}); stderr is not a one-line message: {core.short(res.stderr, 300)!r}; {shown}",
-                    f"C18.reject:{cmd}:{detail}:not-one-line",
-                )
+    readings = _expr_readings(plan)
+    if len(readings) > 1:
+        ctx.count("probe.expression_file_readings_differ")
+    first: Optional[Violation] = None
+    for ri, reading in enumerate(readings):
+        verdict, detail = oracle(plan, doc_bytes, patch_bytes, reading)
+        if ri == 0:
+            ctx.log.add("oracle", verdict, detail if verdict != "ok" else core.short(detail, 80))
+            outcome_class = verdict if verdict != "reject" else f"reject:{detail}"
+            ctx.state(cmd, opt_sig, plan["expr_src"], plan["doc_src"], plan["out"], outcome_class, fk)
+        v = _judge(ctx if ri == 0 else None, plan, res, produced, verdict, detail, fired, shown)
+        if v is None:
+            if ri:
+                ctx.count("probe.accepted_other_file_reading")
+            first = None
+            break
+        if first is None:
+            first = v
+    if first is not None:
+        raise first
 
     if plan["subprocess"]:
         repo = os.path.dirname(os.path.dirname(os.path.abspath(jsonpath.__file__)))
